@@ -383,6 +383,88 @@ def _replay_maxseqs(n, maxseqs, table):
     return replay
 
 
+# ---- (d2) maxseqs with TWO collections: each side is sub-sampled on its own, whatever the other side's size
+def _body_maxseqs_cross(n1, n2, maxseqs):
+    def body():
+        from pyrepseq import distance
+        from pyrepseq.metric import Metric
+        from models import np_model
+        from models.np_model import NDArray
+        from vlib import sym, symops as so
+        la = [f"a{i}" for i in range(n1)]
+        lb = [f"b{j}" for j in range(n2)]
+        D = {(a, b): sym.sym_int(f"d_{i}_{j}", 0, 3) for i, a in enumerate(la) for j, b in enumerate(lb)}
+
+        class TM(Metric):
+            name = "table"
+
+            def calc_pdist_vector(self, inst):
+                raise NotImplementedError
+
+            def calc_cdist_matrix(self, a, b):
+                a, b = list(a), list(b)
+                return NDArray([D[(x, y)] for x in a for y in b], (len(a), len(b)))
+        got = distance.pcDelta(list(la), list(lb), metric=TM(), bins=np_model.arange(0, 5), normalize=False, maxseqs=maxseqs)
+        k1, k2 = min(n1, maxseqs), min(n2, maxseqs)
+        calls, picks = np_model.RANDOM.calls, np_model.RANDOM.picks
+        want_calls = [n for n, k in ((n1, k1), (n2, k2)) if k < n]
+        seen = [len(c[1]["population"]) for c in calls]
+        # a draw from a collection that already fits is harmless (it must then keep everything); a missing draw is not
+        sides = []
+        ci = 0
+        for n, k, lab in ((n1, k1, la), (n2, k2, lb)):
+            if ci < len(calls) and len(calls[ci][1]["population"]) == n and (k < n or len(picks[ci]) == n):
+                if len(picks[ci]) != k or len(set(picks[ci])) != k or calls[ci][1]["replace"] is not False:
+                    return False, f"sampling calls {calls}, picks {picks}"
+                sides.append([lab[t] for t in picks[ci]])
+                ci += 1
+            else:
+                if k < n:
+                    return False, f"a collection of {n} elements was not sub-sampled to {k}: generator calls {seen}, expected draws from {want_calls}"
+                sides.append(list(lab))
+        if ci != len(calls):
+            return False, f"unexpected generator calls {calls}"
+        dists = [D[(x, y)] for x in sides[0] for y in sides[1]]
+        conds = [so.eq(got[k], so.count_true([so.b_or(so.eq(d, k), so.eq(d, k + 1)) if k == 3 else so.eq(d, k) for d in dists])) for k in range(4)]
+        conds.append(so.eq(so.total([got[k] for k in range(4)]), k1 * k2))
+        return so.b_and(*conds), (lambda: f"pcDelta({n1} x {n2}, maxseqs={maxseqs}) = {_realize(got.tolist())}")
+    return body
+
+
+def _replay_maxseqs_cross(n1, n2, maxseqs):
+    def replay(inputs):
+        import numpy as np
+        from pyrepseq import distance
+        from pyrepseq.metric import Metric
+        la = [f"a{i}" for i in range(n1)]
+        lb = [f"b{j}" for j in range(n2)]
+        D = {(a, b): int(inputs[f"d_{i}_{j}"]) for i, a in enumerate(la) for j, b in enumerate(lb)}
+        seen = []
+
+        class TM(Metric):
+            name = "table"
+
+            def calc_pdist_vector(self, inst):
+                raise NotImplementedError
+
+            def calc_cdist_matrix(self, a, b):
+                a, b = list(a), list(b)
+                seen.append((a, b))
+                return np.array([[D[(x, y)] for y in b] for x in a]).reshape(len(a), len(b))
+        k1, k2 = min(n1, maxseqs), min(n2, maxseqs)
+        for seed in range(5):
+            np.random.seed(seed)
+            got = distance.pcDelta(list(la), list(lb), metric=TM(), bins=np.arange(0, 5), normalize=False, maxseqs=maxseqs)
+            a, b = seen[-1]
+            if (len(a), len(b)) != (k1, k2) or len(set(a)) != k1 or len(set(b)) != k2 or not (set(a) <= set(la) and set(b) <= set(lb)):
+                return False, f"pcDelta({n1} x {n2} elements, maxseqs={maxseqs}): the metric saw {len(a)} x {len(b)} elements, expected {k1} x {k2}"
+            want, _ = np.histogram([D[(x, y)] for x in a for y in b], bins=np.arange(0, 5))
+            if list(got) != list(want):
+                return False, f"pcDelta(maxseqs={maxseqs}) = {list(got)} but the sub-samples {a} x {b} have histogram {list(want)}"
+        return True, ""
+    return replay
+
+
 # ---- (e) background bins
 def _body_background():
     def body():
@@ -434,6 +516,10 @@ def conditions(tier):
     for n, ms, table in [(3, 2, False), (3, 3, False), (3, 5, False), (4, 2, False), (4, 3, False), (3, 2, True), (4, 3, True), (2, 0, False)]:
         out.append(Condition(f"C05/maxseqs/n={n}/maxseqs={ms}/" + ("table" if table else "list"), _body_maxseqs(n, ms, table),
                              _replay_maxseqs(n, ms, table), budget=300, models=M, bounds=f"{n} elements, maxseqs={ms}, every possible draw"))
+    for n1, n2, ms in [(2, 3, 2), (3, 2, 2), (3, 3, 2), (1, 3, 2), (2, 2, 3)] + ([(2, 4, 3), (4, 2, 3), (3, 4, 2)] if T else []):
+        out.append(Condition(f"C05/maxseqs_cross/{n1}x{n2}/maxseqs={ms}", _body_maxseqs_cross(n1, n2, ms), _replay_maxseqs_cross(n1, n2, ms),
+                             budget=300 if not T else 1200, models=M,
+                             bounds=f"two collections of {n1} and {n2} elements, maxseqs={ms}, every possible pair of draws, arbitrary cross distances"))
     out.append(Condition("C05/background_bins", _body_background(), _replay_background(), budget=60, models=M,
                          bounds="bundled background table (concrete data audit through the same machinery, single path)"))
     return out
